@@ -104,7 +104,7 @@ PROPS["C06"] = {
         {"bin": "hv", "args": ["c06"]},
         {"bin": "hvt", "args": ["c06"], "tag": "tokio"},
     ],
-    "min": {"quick": {"named_pipe_requests": 200, "evaluations": 50_000, "files_served_intact": 1000, "redirects_301": 50, "availability_requests": 1000, "over_the_wire_files_intact": 30},
+    "min": {"quick": {"named_pipe_requests": 200, "evaluations": 50_000, "files_served_intact": 1000, "redirects_301": 50, "availability_requests": 1000, "over_the_wire_files_intact": 30, "over_the_wire_host_alternations_served_from_own_directory": 30},
             "thorough": {"named_pipe_requests": 200, "evaluations": 1_000_000}},
     "assumptions": [],
     "level_text": "The three real handlers (threaded runtime) and the tokio runtime's serve_dir / serve_as_file_path are called in-process on generated directory trees with uniquely tagged file contents (a few bytes to 5 MiB) and canary files outside the root and named pipes inside it, for every file's own path and for all compositions of traversal/encoding segments to depth 3 (4 thorough); each response is judged by the confinement rule and by an independent resolver of the documented lookup rules.",
